@@ -41,10 +41,10 @@ def cS (mod : String) : Stmt → CEnv → SCode × CEnv
     let ce := cpE mod (ρS env.scopes) e env.lm
     let fv := freshVar mod { env with lm := ce.2 } name
     (ce.1 ++ [(.setVar fv.1, sp)], { fv.2 with nv := fv.2.nv + 1 })
-  | .exprS _ (.assign asp none (.ident _ _ name false _ _) r), env =>
+  | .exprS _ (.assign asp none (.ident _ _ name false _ false) r), env =>
     let cr := cpE mod (ρS env.scopes) r env.lm
     (cr.1 ++ [(.setVar ((ρS env.scopes name).getD name), asp)], { env with lm := cr.2 })
-  | .exprS _ (.assign asp (some op) (.ident _ _ name false _ _) r), env =>
+  | .exprS _ (.assign asp (some op) (.ident _ _ name false _ false) r), env =>
     let m := (ρS env.scopes name).getD name
     let cr := cpE mod (ρS env.scopes) r env.lm
     ([(.getVar m, asp)] ++ cr.1 ++ (arithI op).map (·, asp) ++ [(.setVar m, asp)], { env with lm := cr.2 })
@@ -84,11 +84,12 @@ end
 
 namespace Frag
 mutual
-/-- The statement fragment. -/
+/-- The statement fragment. An assigned identifier must be a plain local (`isGlobal = false` and
+`isSingleton = false`): globals and singletons are compiled to `GetGlobImm`/`SetGlobImm`. -/
 def okS : Stmt → Bool
   | .letS _ _ _ needsCast _ e => !needsCast && pureE e
-  | .exprS _ (.assign _ none (.ident _ _ _ false _ _) r) => pureE r
-  | .exprS _ (.assign _ (some op) (.ident _ _ _ false _ _) r) => !isLogical op && pureE r
+  | .exprS _ (.assign _ none (.ident _ _ _ false _ false) r) => pureE r
+  | .exprS _ (.assign _ (some op) (.ident _ _ _ false _ false) r) => !isLogical op && pureE r
   | .exprS _ (.ifE _ ty c t (some eb)) => ty.isNull && pureE c && okB t && okB eb
   | .exprS _ (.ifE _ ty c t none) => ty.isNull && pureE c && okB t
   | .whileS _ c body => pureE c && okB body
@@ -269,8 +270,8 @@ theorem depthS_pos (st : Stmt) : 1 ≤ Frag.depthS st := by
 /-- Inversion of `okS` on expression statements: an assignment to a local variable, or an
 `if` statement over statement blocks. -/
 theorem okS_exprS_inv (sp : Span) (e : Expr) (h : Frag.okS (.exprS sp e) = true) :
-    (∃ asp op isp ity name isFn isSing r,
-      e = .assign asp op (.ident isp ity name false isFn isSing) r ∧ Frag.pureE r = true ∧
+    (∃ asp op isp ity name isFn r,
+      e = .assign asp op (.ident isp ity name false isFn false) r ∧ Frag.pureE r = true ∧
       (∀ o, op = some o → Frag.isLogical o = false)) ∨
     (∃ isp ty c t eb, e = .ifE isp ty c t (some eb) ∧ ty.isNull = true ∧ Frag.pureE c = true ∧
       Frag.okB t = true ∧ Frag.okB eb = true) ∨
@@ -280,11 +281,11 @@ theorem okS_exprS_inv (sp : Span) (e : Expr) (h : Frag.okS (.exprS sp e) = true)
     left
     cases op <;> cases l <;> try (simp [Frag.okS] at h; done)
     · rename_i isp ity name isGlobal isFn isSing
-      cases isGlobal <;> simp [Frag.okS] at h
-      exact ⟨asp, none, isp, ity, name, isFn, isSing, r, rfl, h, by simp⟩
+      cases isGlobal <;> cases isSing <;> simp [Frag.okS] at h
+      exact ⟨asp, none, isp, ity, name, isFn, r, rfl, h, by simp⟩
     · rename_i o isp ity name isGlobal isFn isSing
-      cases isGlobal <;> simp [Frag.okS] at h
-      exact ⟨asp, some o, isp, ity, name, isFn, isSing, r, rfl, h.2, by simp [h.1]⟩
+      cases isGlobal <;> cases isSing <;> simp [Frag.okS] at h
+      exact ⟨asp, some o, isp, ity, name, isFn, r, rfl, h.2, by simp [h.1]⟩
   case ifE isp ty c t el =>
     right
     cases el with
@@ -337,7 +338,7 @@ theorem compile_stmt : ∀ (fuel : Nat),
         simp only [List.append_assoc]
         rfl
       case exprS sp e =>
-        rcases okS_exprS_inv sp e hs with ⟨asp, op, isp, ity, name, isFn, isSing, r, rfl, hr, hlog⟩ |
+        rcases okS_exprS_inv sp e hs with ⟨asp, op, isp, ity, name, isFn, r, rfl, hr, hlog⟩ |
           ⟨isp, ty, cnd, t, eb, rfl, hty, hcnd, ht, heb⟩ | ⟨isp, ty, cnd, t, rfl, hty, hcnd, ht⟩
         · simp only [Frag.depthS] at hd
           obtain ⟨f', rfl⟩ : ∃ f', fuel = f' + 1 := ⟨fuel - 1, by have := depthE_pos r; omega⟩
@@ -349,7 +350,7 @@ theorem compile_stmt : ∀ (fuel : Nat),
             refine bind_run _ _ _ (updS cs L (c0 ++ _) _) () _ ?_ (by simp [Expr.ty, Ty.isNull]; rfl)
             rw [compileExpr]
             refine bind_run _ _ _ _ _ _ (getMangled_run_S _ _ _ _ _) ?_
-            simp only [Bool.false_eq_true, if_false]
+            simp only [Bool.or_self, Bool.false_eq_true, if_false]
             refine bind_run _ _ _ _ _ _ (compileExpr_pure_S f' r cs L c0 env hr (by omega) hvr) ?_
             rw [emit_run_S]
             simp only [List.append_assoc]
@@ -359,7 +360,7 @@ theorem compile_stmt : ∀ (fuel : Nat),
             refine bind_run _ _ _ (updS cs L (c0 ++ _) _) () _ ?_ (by simp [Expr.ty, Ty.isNull]; rfl)
             rw [compileExpr]
             refine bind_run _ _ _ _ _ _ (getMangled_run_S _ _ _ _ _) ?_
-            simp only [Bool.false_eq_true, if_false]
+            simp only [Bool.or_self, Bool.false_eq_true, if_false]
             refine bind_run _ _ _ _ _ _ (emit_run_S _ _ _ _ _ _) ?_
             refine bind_run _ _ _ _ _ _ (compileExpr_pure_S f' r cs L _ env hr (by omega) hvr) ?_
             refine bind_run _ _ _ _ _ _ (arith_run_S _ _ _ _ _ _ hlog) ?_
